@@ -267,6 +267,7 @@ func (s *DiscoveryServer) initConnection(node *core.Node, con *Connection, ident
 	// a better choice, it introduces a race condition; If we complete initialization of a new push
 	// context between initializeProxy and addCon, we would not get any pushes triggered for the new
 	// push context, leading the proxy to have a stale state until the next push.
+	verifGate("ads.initConnection.beforeAddCon")
 	s.addCon(con.ID(), con)
 	// Register that initialization is complete. This triggers to calls that it is safe to access the
 	// proxy
